@@ -26,7 +26,7 @@ ALPHA = "abx "
 TOKPATS = [r"[ \t]+", " ", ",", "x*"]
 FUEL = 400
 ROUND_CAP = 40          # reference interpreter: rounds of one iterative group before "diverges"
-LEN_CAP = 200
+LEN_CAP = 160
 
 
 def cps(s):
@@ -564,6 +564,8 @@ def ref_run(case, nodes, s, log):
             o = re.sub(ru["pat"], ru["tpl"], s)
             log.append(["rule", nd["id"], s, o])
             s = o
+            if len(s) > LEN_CAP:
+                raise Diverges()        # growth beyond the size the (interpreted) model is run on
         elif k == "mask":
             log.append(["mask", nd["id"], s, s])
         elif k == "iter":
@@ -645,7 +647,8 @@ class C13(Check):
         "the sandbox's 'regex' module does not import, so delphin.repp runs on stdlib 're' (REPPWarning silenced)",
         "iterative groups that do not reach a fixpoint never terminate in the real code: generated programs are kept "
         "only if the reference interpreter reaches the fixpoint within %d rounds (the rest are counted as "
-        "'diverging_skipped'); the implementation runs under a 5 s alarm" % ROUND_CAP,
+        "'diverging_skipped', together with programs whose intermediate strings grow beyond %d characters); the "
+        "implementation runs under a 5 s alarm" % (ROUND_CAP, LEN_CAP),
         "masks: the model covers the all-zero mask array (mask rules alone or after the last rewrite rule); blocking "
         "of rewrite rules by earlier masks is outside the property and not generated",
         "module loading (_parse_repp_module, _handle_group_call) is not modelled: the oracle compares the loaded "
@@ -659,6 +662,7 @@ class C13(Check):
     def __init__(self):
         self.tmp = None
         self._cache = {}
+        self._req = {}
         self.diverging = 0
 
     def setup(self):
@@ -716,6 +720,7 @@ class C13(Check):
 
     def impl(self, case):
         obs = self.full(case)
+        self.model_request(case)          # built now, while the observation is at hand
         if "err" in obs:
             return {"err": obs["err"]}
         runs = []
@@ -725,6 +730,15 @@ class C13(Check):
                 "runs": runs}
 
     def model_request(self, case):
+        key = json.dumps(case, sort_keys=True)
+        if key in self._req:
+            return self._req[key]
+        req = self.build_request(case)
+        if len(self._req) < 200000:
+            self._req[key] = req
+        return req
+
+    def build_request(self, case):
         obs = self.full(case)
         if "err" in obs:
             if obs["err"] != "re.error":
@@ -925,7 +939,7 @@ class C13(Check):
                     inc("matches:empty")
                 if any(g is None for g in m["g"]):
                     inc("matches:unmatched_group")
-        for run in res["runs"]:
+        for run in obs["runs"]:
             if "err" in run:
                 inc("run_err:" + run["err"])
                 continue
@@ -940,7 +954,8 @@ class C13(Check):
     def nontrivial_key(self, case, res):
         if not isinstance(res, dict) or "runs" not in res:
             return None
-        if not any(st["applied"] for run in res["runs"] if "steps" in run for st in run["steps"] if st["kind"] == "rule"):
+        obs = self.full(case)
+        if not any(st["applied"] for run in obs["runs"] if "steps" in run for st in run["steps"] if st["kind"] == "rule"):
             return None
         return json.dumps(case, sort_keys=True)
 
